@@ -87,19 +87,22 @@ def inside (st : State) (r c : Int) : Bool := decide (0 ≤ r) && decide (r < st
 /-- Generic invariants (C01 ledger by class, C02, C03) for every cell; `exemptMort` for the
     overpopulation moves, which are documented not to maintain the mortality cohorts. -/
 def invariants (pre post : List Cell) (cls : Nat → Ledger) (exemptMort : Bool) (skipLedger : Nat → Bool) : Option String :=
-  let rec go (k : Nat) : List Cell → List Cell → Option String
-    | a :: as, b :: bs =>
-      if !(skipLedger k) && !(ledgerOK (cls k) a b) then
-        some s!"PROPFAIL C01 ledger cell={k} pre={showCell a} post={showCell b}"
-      else if a.nonNeg && !b.nonNeg then some s!"PROPFAIL C02 nonneg cell={k} pre={showCell a} post={showCell b}"
+  if pre.length ≠ post.length then some "BADLINE cells" else
+  let cells := List.zip (List.range pre.length) (List.zip pre post)
+  -- one verdict per predicate (its first failing cell), so that a line can be reported under every
+  -- property it violates and not only under the first one tested
+  let first (f : Nat → Cell → Cell → Option String) : Option String :=
+    cells.findSome? fun (k, a, b) => f k a b
+  let verdicts : List String := [
+    first (fun k a b => if !(skipLedger k) && !(ledgerOK (cls k) a b) then
+      some s!"PROPFAIL C01 ledger cell={k} pre={showCell a} post={showCell b}" else none),
+    first (fun k a b => if a.nonNeg && !b.nonNeg then some s!"PROPFAIL C02 nonneg cell={k} pre={showCell a} post={showCell b}"
       else if a.nonNeg && a.totalsOK && a.infectedLeTotal && !b.infectedLeTotal then
-        some s!"PROPFAIL C02 infected_le_total cell={k} post={showCell b}"
-      else if a.totalsOK && !b.totalsOK then some s!"PROPFAIL C03 totals cell={k} pre={showCell a} post={showCell b}"
-      else if !exemptMort && a.mortOK && !b.mortOK then some s!"PROPFAIL C03 mortality_cohorts cell={k} pre={showCell a} post={showCell b}"
-      else go (k + 1) as bs
-    | [], [] => none
-    | _, _ => some "BADLINE cells"
-  go 0 pre post
+        some s!"PROPFAIL C02 infected_le_total cell={k} post={showCell b}" else none),
+    first (fun k a b => if a.totalsOK && !b.totalsOK then some s!"PROPFAIL C03 totals cell={k} pre={showCell a} post={showCell b}"
+      else if !exemptMort && a.mortOK && !b.mortOK then some s!"PROPFAIL C03 mortality_cohorts cell={k} pre={showCell a} post={showCell b}" else none)
+  ].filterMap id
+  if verdicts.isEmpty then none else some (" ;; ".intercalate verdicts)
 
 def firstDiff (exp obs : List Cell) : Option String :=
   let rec go (k : Nat) : List Cell → List Cell → Option String
@@ -777,7 +780,9 @@ def handle (st : State) (cmd : String) (inp obsToks : List String) : State × St
                 if st.mt == .sei then (List.range pre.length).findSome? fun k =>
                   let a := pre[k]!; let b := post[k]!
                   if a.e.isEmpty || arrivalsStayExposed a b then none
-                  else some s!"PROPFAIL C05 arrival_not_exposed cell={k} pre={showCell a} post={showCell b}"
+                  else some (s!"PROPFAIL C05 arrival_not_exposed cell={k} pre={showCell a} post={showCell b}" ++
+                    -- C04: an established disperser turns one susceptible host into an EXPOSED host in the SEI model
+                    s!" ;; PROPFAIL C04 established_host_not_exposed cell={k} pre={showCell a} post={showCell b}")
                 else none
               let p2 : Option String :=
                 if p1.isSome then p1
@@ -801,7 +806,11 @@ def handle (st : State) (cmd : String) (inp obsToks : List String) : State × St
                   | .error e => finish st1 o s!"MISMATCH hp.spread model={errTok e}"
                   | .ok (cells', p', _, _) =>
                     if p'.disp != dispO then finish st1 o "MISMATCH hp.spread dispersers"
-                    else if p'.est != estO then finish st1 o s!"MISMATCH hp.spread established model={p'.est} observed={estO}"
+                    else if p'.est != estO then
+                      -- with stochastic establishment off the decision is the deterministic rule of C12 itself
+                      -- (suitability > 1 - establishment probability), on fully observed inputs
+                      finish st1 o ((if sto != "1" then s!"PROPFAIL C12 deterministic_establishment established model={p'.est} observed={estO} pEst={pEst} ;; " else "") ++
+                        s!"MISMATCH hp.spread established model={p'.est} observed={estO}")
                     else if p'.outside != outO then finish st1 o "MISMATCH hp.spread outside"
                     else finish st1 o (cmpCells cmd cells' post)
           | _, _, _ => (st, "BADLINE spread-obs")
@@ -843,6 +852,17 @@ def handle (st : State) (cmd : String) (inp obsToks : List String) : State × St
                   let left := sumL (departing.map fun (r, c) => leavingCount leave (pre[g.idx r c]!))
                   let infectedBefore := sumL (pre.map (·.i))
                   let infectedAfter := sumL (post.map (·.i))
+                  -- "D D": deterministic radial kernel (3x3 window): destinations are neighbours of the source or the
+                  -- source itself; those beyond the edge are recorded with their real coordinates
+                  if drT == "D" then
+                    let near (t : Int × Int) : Bool := departing.any fun (r, c) => (t.1 - r).natAbs ≤ 1 && (t.2 - c).natAbs ≤ 1
+                    if outO.any (fun t => !(g.isOutside t.1 t.2)) then finish st o s!"PROPFAIL C17 outside_recorded inside_cell_recorded_as_outside first={outO.head!}"
+                    else if outO.any (fun t => !(near t)) then finish st o s!"PROPFAIL C17 overpopulation_kernel_scale destination_beyond_window {outO}"
+                    else if (outO.length : Int) > left then finish st o s!"PROPFAIL C17 leaving_count recorded_outside={outO.length} left={left}"
+                    else if infectedAfter > infectedBefore || infectedAfter < infectedBefore - left then
+                      finish st o s!"PROPFAIL C17 leaving_count infected_before={infectedBefore} after={infectedAfter} left={left}"
+                    else finish st o "ok"
+                  else
                   if !outO.isEmpty then finish st o s!"PROPFAIL C17 uniform_destination_outside recorded={outO.length} first={outO.head!}"
                   else if infectedAfter > infectedBefore || infectedAfter < infectedBefore - left then
                     finish st o s!"PROPFAIL C17 leaving_count infected_before={infectedBefore} after={infectedAfter} left={left}"
